@@ -1,0 +1,55 @@
+//go:build verif
+
+package decode
+
+// Contracts for the verification harness under /verif (comment-only file).
+//
+// C13: with a key prefix, decodeJson / decodeProtobuf build the new key names
+// behind the end of the event's buffer and point the field names at those bytes
+// without copying (ByteToStringUnsafe: a view, see contracts-lib).  Rule for
+// such views: each lies inside the buffer the function returns, below its
+// length - and Do keeps exactly that buffer as event.Buf, so that the next
+// action appends behind the names instead of over them.
+
+//@ func (*Plugin).decodeJson
+//@   option allow-exit yes
+//@   requires p.config != nil
+//@   ensures len(result) >= len(buf)
+//@   loop 1 invariant len(buf) >= old(len(buf))
+//@   callee MutateToField(s)
+//@     requires uf_viewref(s) == ref(buf) && off(buf) <= uf_viewoff(s) && uf_viewoff(s) + len(s) <= off(buf) + len(buf)
+//@     pure
+//@   callee AsFields() (r)
+//@     pure
+//@   callee AsString() (r)
+//@     pure
+//@   callee AsBytes() (r)
+//@     pure
+//@   callee IsObject() (r)
+//@     pure
+//@   callee checkError(e, n) (r)
+//@     pure
+//@   callee Decode(d, a) (r, e)
+//@     pure
+//@     ensures typeis(r, "*github.com/ozontech/insane-json.Node")
+
+//@ func (*Plugin).Do
+//@   option allow-exit yes
+//@   requires p.config != nil
+//@   ghost gref int = 0
+//@   ghost goff int = 0
+//@   ghost glen int = 0
+//@   ghost called bool = false
+//@   ensures called ==> ref(event.Buf) == gref && off(event.Buf) == goff && len(event.Buf) == glen
+//@   callee decodeJson(root, node, buf) (r)
+//@     requires buf == event.Buf
+//@     set gref := ref(r)
+//@     set goff := off(r)
+//@     set glen := len(r)
+//@     set called := true
+//@   callee decodeProtobuf(root, node, buf) (r)
+//@     requires buf == event.Buf
+//@     set gref := ref(r)
+//@     set goff := off(r)
+//@     set glen := len(r)
+//@     set called := true
